@@ -27,7 +27,11 @@ var simEpoch = time.Date(2026, 1, 1, 0, 0, 0, 0, time.UTC)
 
 //go:norace
 func (s *Sim) inTask() bool {
-	return s != nil && s.running != nil && getg() == s.running.g
+	if s == nil {
+		return false
+	}
+	t := s.running // read once: a foreign goroutine may call this while the scheduler changes it
+	return t != nil && getg() == t.g
 }
 
 // advance moves the clock to t (never backwards) and fires due timers.
